@@ -9,7 +9,7 @@ func init() {
 			"the 18-digit square root is used exactly for ticks ≥ the old minimum (and prices ≥ 10^-12 are chopped to 18 digits), the 36-digit one otherwise; rounding a tick to its spacing subtracts the Euclidean remainder (never moves up); the ±1 correction of sqrt-price→tick compares with the neighbouring ticks' sqrt prices using ≥ / ≥ / <.",
 		NotCovered:  []string{"monotonicity and exactness of the tick→price formula over the 4.5·10^8 ticks", "inverse property sqrt-price→tick→sqrt-price (numeric enumeration)"},
 		Assumptions: []string{"osmomath monotone square roots (C13)"},
-		MinObl:      43,
+		MinObl:      48,
 		Run:         runC14,
 	})
 }
@@ -63,6 +63,7 @@ func runC14(c *rules.Ctx) {
 	const AS = "x/concentrated-liquidity/model.Pool.ApplySwap"
 	c.FailsWhen(AS, "lt(newCurrentTick, -108000001)", "a swap cannot move the tick below the minimum", rules.GuardOpt{})
 	c.FailsWhen(AS, "gt(newCurrentTick, 342000000)", "a swap cannot move the tick above the maximum", rules.GuardOpt{})
+	spotPriceRules(c)
 	// ---- price → sqrt-price conversion for swap limits: the supported price range is closed at both ends
 	const GL = "x/concentrated-liquidity/swapstrategy.GetSqrtPriceLimit"
 	c.BranchOn(GL, "lt(priceLimit, @cltypes.MinSpotPriceV2)", []string{"le(priceLimit, @cltypes.MinSpotPriceV2)"}, "a price limit is rejected only when strictly below the minimum spot price (the minimum itself converts)")
